@@ -891,6 +891,27 @@ func (c *specCtx) call(n *SCall) (Val, types.Type) {
 		}
 		kk := c.e.mapKey(c.st, it.KeyT, k)
 		return scalar(tb.Select(it.Dom, kk)), boolType
+	case "streaming":
+		// streaming(): whether reader contents are modelled as a byte stream in this run (content clauses are conditional on it)
+		if c.e.Opts.StreamModel {
+			return scalar(tb.True()), boolType
+		}
+		return scalar(tb.False()), boolType
+	case "rpos":
+		// rpos(r): number of bytes consumed from reader r so far (ghost)
+		v, _ := arg(0)
+		if len(v.T) != 2 {
+			c.fail("rpos needs an io.Reader value")
+		}
+		return scalar(tb.Select(c.ghostArr("rpos", SArrI), readerKey(tb, v))), untypedInt
+	case "streamAt":
+		// streamAt(r, i): the i-th byte of the stream behind reader r (uninterpreted content)
+		v, _ := arg(0)
+		i, _ := arg(1)
+		if len(v.T) != 2 {
+			c.fail("streamAt needs an io.Reader value")
+		}
+		return scalar(tb.App("stream", SInt, readerKey(tb, v), i.T[0])), untypedInt
 	case "held":
 		// held(&x.mtx): the ghost lock state of a mutex
 		v, _ := arg(0)
